@@ -221,16 +221,17 @@ def run(ctx):
                               {"property": "C05", "workspace": {"files": c["files"], "root": c["root"]},
                                "directed": {"use": [lo, hi], "decl": [dlo, dhi], "key": "unknown-sequence"}})
                 found = True
-    # the declarative resolver ScopeSpec (extracted) on the single-file programs of its fragment: against the
-    # generator's by-construction map (spec sanity) and against the model's use log (what C05_resolution states)
-    spec_stats = {"fragment_programs": 0, "spec_vs_generator": 0, "spec_vs_model": 0}
+    # the declarative resolver ScopeSpec (extracted) on the programs of its fragment (one or several files): against
+    # the generator's by-construction map (spec sanity) and against the model's use log (what C05_resolution states)
+    spec_stats = {"fragment_programs": 0, "multi_file": 0, "spec_vs_generator": 0, "spec_vs_model": 0}
     if exe:
-        one = [(p, w, c) for p, w, c in zip(progs, wss, C) if len(w["files"]) == 1 and not c.get("noncore") and not c.get("panic")]
+        one = [(p, w, c) for p, w, c in zip(progs, wss, C) if not c.get("noncore") and not c.get("panic")]
         S = sl.model(exe, [c for _p, _w, c in one], [w for _p, w, _c in one], cmd="spec")
         for (p, w, c), sp in zip(one, S):
             if sp is None or sp.get("error") or not sp["frag"]:
                 continue
             spec_stats["fragment_programs"] += 1
+            spec_stats["multi_file"] += len(w["files"]) > 1
             files = c["files"]
             got = {(files[e[0]], e[1], e[2]): (None if e[3] is None else (files[e[3][0]], e[3][1], e[3][2])) for e in sp["spec"]}
             exp = {(u[0], u[1], u[2]): p.decls[u[3]] for u in p.uses}
